@@ -49,8 +49,11 @@ def same_but_case(a, b):
 
 
 def is_unquoted_word(tok):
-    """The only tokens a capitalisation fix may touch: what the dialect lexer calls a bare word."""
-    return tok[1] == "code" and tok[2] == "word"
+    """Tokens a capitalisation fix may re-case: code tokens that are not quoted (the statement protects quoted
+    identifiers, string literals, comments and whitespace).  Besides `word` some dialects lex unquoted identifiers
+    under other names (snowflake METADATA$FILENAME is an `inline_dollar_sign`); anything whose lexer type says
+    `quote` is protected."""
+    return tok[1] == "code" and "quote" not in tok[2]
 
 
 def compare(before, after):
